@@ -628,3 +628,6 @@ func (db *DB) CheckFind(q *Q, got []Doc) error {
 	}
 	return nil
 }
+
+// Affected exposes the set of documents a bulk write must touch (see affected).
+func (db *DB) Affected(q *Q, obs *Obs) ([]string, error) { return db.affected(q, obs) }
